@@ -4,6 +4,9 @@ import SpVerif.Model.Nak
 import SpVerif.Model.KeepAlive
 import SpVerif.Model.FileData
 import SpVerif.Model.UslpFrame
+import SpVerif.Model.Eof
+import SpVerif.Model.Finished
+import SpVerif.Model.Metadata
 /-!
 # Setter state machines of the mutable packet classes (property C11)
 
@@ -242,5 +245,120 @@ def framePack (s : FrameS) : Py (Bytes × FrameS) :=
   | .error e => .error e.toErr
 
 end Uslp
+
+/-! ## EOF PDU: `fault_location` -/
+section Eof
+open SpVerif.Eof SpVerif.Tlv
+
+inductive EofOp
+  | faultLoc (fl : Option EntityIdTlv)
+deriving DecidableEq, Repr
+
+def eofStep (k : Eof) : EofOp → Eof × Option Err
+  | .faultLoc fl =>
+    match k.setFaultLoc fl with
+    | .ok k' => (k', none)
+    | .error e => (k, some e)
+
+def eofMachine : Machine Eof EofOp := ⟨eofStep⟩
+
+def eofPack (k : Eof) : Py (Bytes × Eof) := do
+  let b ← k.pack
+  pure (b, k)
+
+end Eof
+
+/-! ## Finished PDU: `file_store_responses`, `fault_location`, `condition_code` -/
+section Finished
+open SpVerif.Finished SpVerif.Tlv
+
+/-- a `FinishedPdu` object: the PDU and, per filestore response, the octets of the `tlv` object the
+    response caches once `pack()` has built it (`FileStoreResponseTlv.tlv`; `none` = not yet built).
+    No documented setter mutates a TLV object, so a cached TLV always equals what `_build_tlv()`
+    would build again; the cache is recorded here to state that packing changes nothing else. -/
+structure FinS where
+  obj : Finished
+  cache : List (Option Bytes)
+deriving DecidableEq, Repr
+
+inductive FinOp
+  | cond (c : Int)
+  | responses (rs : Option (List FileStoreResponseTlv))
+  | faultLoc (fl : Option EntityIdTlv)
+deriving DecidableEq, Repr
+
+/-- state right after the constructor or the decoder: nothing cached -/
+def FinS.ofNew (k : Finished) : FinS := ⟨k, k.responses.map fun _ => none⟩
+
+/-- one setter call; a refused call leaves the PDU unchanged; a new list of responses brings its
+    own (here: empty) caches, the other two setters do not touch the responses -/
+def finStep (s : FinS) : FinOp → FinS × Option Err
+  | .cond c =>
+    match s.obj.setCond c with
+    | .ok k' => ({ s with obj := k' }, none)
+    | .error e => (s, some e)
+  | .responses rs =>
+    match s.obj.setResponses rs with
+    | .ok k' => (FinS.ofNew k', none)
+    | .error e => (s, some e)
+  | .faultLoc fl =>
+    match s.obj.setFaultLoc fl with
+    | .ok k' => ({ s with obj := k' }, none)
+    | .error e => (s, some e)
+
+def finMachine : Machine FinS FinOp := ⟨finStep⟩
+
+/-- the octets every response's `pack()` returns (what the caches hold afterwards) -/
+def responseOctets : List FileStoreResponseTlv → Py (List Bytes)
+  | [] => pure []
+  | r :: l => do
+    let x ← r.pack
+    let rest ← responseOctets l
+    pure (x :: rest)
+
+/-- `pack()`: the octets, and the object with every response's TLV cached -/
+def FinS.pack (s : FinS) : Py (Bytes × FinS) := do
+  let b ← s.obj.pack
+  let cs ← responseOctets s.obj.responses
+  pure (b, { s with cache := cs.map some })
+
+def FinS.reported (s : FinS) : Nat := s.obj.packetLen
+
+/-- `__eq__` (never looks at the caches) -/
+def FinS.beq (a b : FinS) : Py Bool := a.obj.beq b.obj
+
+end Finished
+
+/-! ## Metadata PDU: `options`, `source_file_name`, `dest_file_name` -/
+section Metadata
+open SpVerif.Metadata SpVerif.Tlv
+
+inductive MdOp
+  | options (o : Option (List AnyTlv))
+  | srcName (n : Option Bytes)
+  | dstName (n : Option Bytes)
+deriving DecidableEq, Repr
+
+def mdStep (k : Metadata) : MdOp → Metadata × Option Err
+  | .options o =>
+    match k.setOptions o with
+    | .ok k' => (k', none)
+    | .error e => (k, some e)
+  | .srcName n =>
+    match k.setSrcName n with
+    | .ok k' => (k', none)
+    | .error e => (k, some e)
+  | .dstName n =>
+    match k.setDstName n with
+    | .ok k' => (k', none)
+    | .error e => (k, some e)
+
+def mdMachine : Machine Metadata MdOp := ⟨mdStep⟩
+
+def mdPack (k : Metadata) : Py (Bytes × Metadata) := do
+  let b ← k.pack
+  pure (b, k)
+
+end Metadata
 
 end SpVerif.Mutation
